@@ -49,7 +49,8 @@ def run(ctx):
     res = Result()
     res.rule = ("random series (all signs, constant, equal/unequal lengths, ndim 1..3) x window x inner distance x "
                 "penalty; both bounds from both engines compared with the Lean model (exact on the integer lattice) and "
-                "the sandwich LB <= DTW <= ED evaluated on the implementation; only_ub == ED; non-trivial = unequal "
+                "the sandwich LB <= DTW <= ED evaluated on the implementation; only_ub == ED; a real-valued stream (values "
+                "inside (-1,1) and wider) compares every bound route with the definition evaluated by the harness; non-trivial = unequal "
                 "lengths, clipped window, negative data or ndim > 1")
     cases = gen_cases(ctx)
     ops = [dict(dc.lean_op(c, engine="py"), op="bounds") for c in cases] + [dc.lean_op(c, engine="py") for c in cases]
@@ -152,7 +153,80 @@ def run(ctx):
         if od["spec"] != "inf" and (not case.get("penalty") or r == c) and od["spec"] > ob["ed"]:
             res.mismatches.append({"what": "model spec above model ED", "case": case})
         res.sample({"case": case, "ed": exp_ed, "lb": exp_lb, "dtw_python": d_py}, limit=4)
+    float_stream(ctx, res, ed_cc)
     return res
+
+
+def float_stream(ctx, res, ed_cc):
+    """real-valued series (values inside (-1,1) and wider, unequal lengths): every upper-bound route of both engines
+    against the harness' own evaluation of the documented definition, LB_Keogh python == C, and the sandwich"""
+    from dtaidistance import dtw, dtw_ndim, ed, dtw_cc
+    rng = ctx.rng
+    for it in range(2500 if ctx.thorough else 300):
+        nd = rng.choice([1, 1, 1, 2, 3])
+        amp = rng.choice([0.9, 0.9, 5.0])
+        la, lb_ = rng.randint(1, 9), rng.randint(1, 9)
+        if rng.random() < 0.3:
+            lb_ = la
+        a = np.array([[rng.uniform(-amp, amp) for _ in range(nd)] for _ in range(la)])
+        b = np.array([[rng.uniform(-amp, amp) for _ in range(nd)] for _ in range(lb_)])
+        s1, s2 = (a[:, 0].copy(), b[:, 0].copy()) if nd == 1 else (a, b)
+        res.evaluations += 1
+        res.hit("float_stream")
+        res.nontrivial.add(repr((a.tolist(), b.tolist())))
+        for inner in ("squared euclidean", "euclidean"):
+            tot = 0.0
+            for t_ in range(max(la, lb_)):
+                diff = a[min(t_, la - 1)] - b[min(t_, lb_ - 1)]
+                sq = float(np.sum(diff ** 2))
+                tot += sq if inner == "squared euclidean" else math.sqrt(sq)
+            ref = math.sqrt(tot) if inner == "squared euclidean" else tot
+            if nd == 1:
+                routes = {"ed.distance": lambda: ed.distance(s1, s2, inner_dist=inner),
+                          "ed.distance_fast": lambda: ed.distance_fast(s1, s2, inner_dist=inner),
+                          "dtw.ub_euclidean": lambda: dtw.ub_euclidean(s1, s2, inner_dist=inner),
+                          "distance(only_ub) python": lambda: dtw.distance(s1, s2, only_ub=True, inner_dist=inner),
+                          "distance(only_ub) C": lambda: dtw.distance_fast(s1, s2, only_ub=True, inner_dist=inner)}
+                if inner == "squared euclidean":
+                    routes["dtw_cc.ub_euclidean"] = lambda: dtw_cc.ub_euclidean(s1, s2)
+            else:
+                routes = {"ed.distance(ndim)": lambda: ed.distance(s1, s2, inner_dist=inner, use_ndim=True),
+                          "dtw_ndim.ub_euclidean": lambda: dtw_ndim.ub_euclidean(s1, s2, inner_dist=inner),
+                          "distance(only_ub) python ndim": lambda: dtw_ndim.distance(s1, s2, only_ub=True, inner_dist=inner),
+                          "distance(only_ub) C ndim": lambda: dtw_ndim.distance_fast(s1, s2, only_ub=True, inner_dist=inner)}
+                if ed_cc is not None:
+                    routes["ed_cc.distance_ndim"] = lambda: ed_cc.distance_ndim(s1, s2, 0 if inner == "squared euclidean" else 1)
+            info = {"s1": a.tolist(), "s2": b.tolist(), "inner": inner, "ndim": nd}
+            for name, fn in routes.items():
+                v = call(fn)
+                if not agree(v, impl.canon(ref), ulps=64):
+                    res.violations.append(dict(info, clause="Euclidean bound on real-valued series: engines agree with the "
+                                                            "definition / only_ub returns it", route=name, got=v,
+                                               expected=ref))
+            w = rng.choice([None, 1, 2, 3])
+            kw = {"inner_dist": inner}
+            if w is not None:
+                kw["window"] = w
+            mod = dtw if nd == 1 else dtw_ndim
+            d_py = call(lambda: mod.distance(s1, s2, **kw))
+            d_c = call(lambda: mod.distance_fast(s1, s2, **kw))
+            if not agree(d_py, d_c, ulps=64):
+                res.violations.append(dict(info, clause="DTW: engines agree (real-valued)", python=d_py, c=d_c, window=w))
+            for eng, d in (("python", d_py), ("C", d_c)):
+                if isinstance(d, float) and d > ref * (1 + 1e-12) + 1e-300:
+                    res.violations.append(dict(info, clause="DTW <= Euclidean distance (real-valued)", engine=eng, dtw=d,
+                                               ed=ref, window=w))
+            if nd == 1:
+                l_py = call(lambda: dtw.lb_keogh(s1, s2, **kw))
+                l_c = call(lambda: dtw.lb_keogh(s1, s2, use_c=True, **kw))
+                if not agree(l_py, l_c, ulps=64):
+                    res.violations.append(dict(info, clause="LB_Keogh: engines agree (real-valued)", python=l_py, c=l_c,
+                                               window=w))
+                for eng, d in (("python", d_py), ("C", d_c)):
+                    for nm, l in (("python", l_py), ("C", l_c)):
+                        if isinstance(d, float) and isinstance(l, float) and l > d * (1 + 1e-12) + 1e-300:
+                            res.violations.append(dict(info, clause="LB_Keogh <= DTW (real-valued)", engine=eng, lb_engine=nm,
+                                                       lb=l, dtw=d, window=w))
 
 
 def replay(ctx, rep):
